@@ -10,6 +10,12 @@ D = {
  "C09-a": ("C09", "userCheck marks the upstream node 'walked' before checking the edge tombstone", "a user whose only live path to the root passes through a node already met at the far end of an older deleted edge (moved into a subgroup; mirrored + first group deleted)", "caught as first written"),
  "C13-a": ("C13", "ruleProcessPoints loops conditions outside points, comparing against the pre-batch state", "one batch with two points matching the same condition, the first flipping it, the last flipping it back", "missed by quick at first (single-point batches; thorough had two-point batches); caught after moving a two-point-batch part into quick; the new part first raised a false alarm on transient condition publications, which the oracle now settles per batch"),
  "C16-a": ("C16", "foundStart after moving leftover bytes decided from the first byte only", "a device read ending inside the next frame after its leading null, the following read starting exactly with that frame's delimiter", "caught as first written"),
+ "C02-a": ("C02", "syncNode no longer resets its upstreamProcessed map between the node-point and the edge-point comparison", "an outage during which an edge point with a new identity is written upstream on a node below the device root, at an index already matched by a node point", "caught as first written (diverged/content-differs at depth 3)"),
+ "C04-a": ("C04", "edgePoints records the new root in meta after the commit of the root edge instead of inside the transaction", "first-time initialisation without a configured instance id, process death between the two commits: the restart creates a second root", "missed at first (for crashes during initialisation only 'opens again, stable identity' was demanded); caught after adding the single-root oracle (the file holds exactly one node under \"root\", equal to meta and to the instance root)"),
+ "C08-a": ("C08", "the per-client subscription callback in Manager.scan compares origins with the loop variable n.ID instead of cs.node.ID (one variable per loop under go 1.20)", "a manager with at least two nodes of its type: every client but the last one filters by the last node's id", "missed at first (one client in the fixture); caught after adding a sibling client of the same type and that sibling as an author"),
+ "C10-a": ("C10", "DiffPoints nil -> non-nil *struct falls through to the field-by-field diff against a zero struct", "a pointer-to-struct field going from nil to a pointer to an all-zero struct", "caught as first written"),
+ "C11-a": ("C11", "SetValue initialises a nil *struct only if the group holds a live point", "nil *struct target and a batch of that type whose points are all tombstoned but do not cover every field", "caught as first written"),
+ "C12-a": ("C12", "SerialDecode: the inner length guard before the payload slice removed as 'redundant'", "a 17- or 18-byte packet whose subject is not log and whose last two bytes are a VALID CRC of the rest", "missed at first (truncations of valid packets never carry a valid CRC); caught after adding the part that builds packets of every length 3..40 with a correct checksum"),
 }
 for name, (prop, what, needs, note) in D.items():
     d = '/verif/seeded/' + name
